@@ -20,7 +20,9 @@ impl NameMap {
             "ascii" => vec!["a", "b", "c", "d", "e", "f"],
             // siblings that are string prefixes of each other (MemoryFS lists by string prefix)
             "prefix" => vec!["a", "ab", "a.b", "abc", "a-", "a b"],
-            "dotted" => vec![".hidden", "x.tar.gz", "a.", "...", "..a", ".b."],
+            // dots in every position (".." inside a component is an ordinary name, only "." and ".." are special)
+            "dotted" => vec!["..a", "x..tar.gz", "a.", "...", ".hidden", ".b."],
+            "dotted2" => vec![".hidden", "a..", "x.tar.gz", "....", "b.c", ". ."],
             "multi" => vec!["ä", "日本", "a b", "🦀", "é\u{301}", "ß_wö"],
             "long" => vec![],
             _ => panic!("unknown name map {id}"),
